@@ -251,6 +251,46 @@ def _expr(src, node):
     return [_atom(t) for t in _flat_sum(body)], gain
 
 
+def gain_literal(src):
+    """how the divisor of `m0 = (sum) / (gain)` is SPELLED in the generated source: "int" | "float" | "frac" (p/q of
+    integer literals) | "complex" | "other"; None when the statement is not a division by a constant"""
+    try:
+        fn = ast.parse(src).body[0]
+        loop = [st for st in fn.body if isinstance(st, ast.For)][0]
+        node = loop.body[0].value
+    except Exception:
+        return None
+    if not (isinstance(node, ast.BinOp) and isinstance(node.op, ast.Div) and _is_const(node.right)):
+        return None
+
+    def strip(n):
+        while isinstance(n, ast.UnaryOp) and isinstance(n.op, (ast.USub, ast.UAdd)):
+            n = n.operand
+        return n
+
+    def kind(n):
+        n = strip(n)
+        if isinstance(n, ast.Constant):
+            v = n.value
+            return "bool" if isinstance(v, bool) else "int" if isinstance(v, int) else "float" if isinstance(v, float) \
+                else "complex" if isinstance(v, complex) else "other"
+        if isinstance(n, ast.BinOp) and isinstance(n.op, ast.Div):
+            return "frac" if kind(n.left) == "int" and kind(n.right) == "int" else "other"
+        if isinstance(n, ast.BinOp) and isinstance(n.op, (ast.Add, ast.Sub)):
+            return "complex" if "complex" in (kind(n.left), kind(n.right)) else "other"
+        return "other"
+    return kind(node.right)
+
+
+def gain_spelling(j):
+    """how python formats a gain of that type into the source"""
+    if isinstance(j, dict):
+        return "float"
+    if isinstance(j, str):
+        return "int" if Fraction(j).denominator == 1 else "frac"
+    return "int"
+
+
 def parse_source(src):
     """source of the generated `gen` -> canonical IR (same JSON shape as the Lean driver prints)"""
     try:
@@ -309,9 +349,15 @@ def parse_source(src):
 # ---------------------------------------------------------------------------------------------
 # the real code
 # ---------------------------------------------------------------------------------------------
-def _mem_obj(m):
+ITER_FLAVOURS = ("gen", "iter", "stream", "counting")      # memories that are ITERATORS: reading them is observable
+
+
+def _mem_obj(m, log=None):
+    """the memory object of a case; a callable memory notes every size it is asked for in `log`"""
     if m is None:
         return None
+    if log is None:
+        log = []
     k = m["kind"]
     if k == "iter":
         vals = [val(v) for v in m["vals"]]
@@ -328,6 +374,8 @@ def _mem_obj(m):
             return deque(vals)
         if how == "iter":
             return iter(vals)
+        if how == "counting":               # an iterator that counts what is pulled from it
+            return X._Counting(iter(vals))
         if how == "substream":              # a Stream subclass with its own __iter__
             from audiolazy import Stream
 
@@ -338,27 +386,47 @@ def _mem_obj(m):
         return list(vals)
     if k == "gen":
         base, step = val(m["base"]), val(m["step"])
+        if m.get("as") == "counting":
+            return X._Counting(base + i * step for i in itertools.count())
         return (base + i * step for i in itertools.count())
     form = m["form"]
+
+    def note(n, r):
+        log.append(n)
+        return r
     if form == "fixed":
         vals = [val(v) for v in m["vals"]]
         ret = m.get("ret", "list")
         if ret == "same":                  # always the very same list object
-            return lambda n: vals
+            return lambda n: note(n, vals)
         if ret == "tuple":
-            return lambda n: tuple(vals)
+            return lambda n: note(n, tuple(vals))
         if ret == "gen":
-            return lambda n: (v for v in vals)
+            return lambda n: note(n, (v for v in vals))
         if ret == "bound":                 # a bound method (callable, not iterable)
             class Holder(object):
                 def get(self, n):
-                    return list(vals)
+                    return note(n, list(vals))
             return Holder().get
-        return lambda n: list(vals)
+        return lambda n: note(n, list(vals))
     base, step = val(m["base"]), val(m["step"])
     if form == "arith":
-        return lambda n: [base + i * step for i in range(n)]
-    return lambda n: (base + (n - 1 - i) * step for i in range(n))     # arithrev, as a generator
+        return lambda n: note(n, [base + i * step for i in range(n)])
+    return lambda n: note(n, (base + (n - 1 - i) * step for i in range(n)))     # arithrev, as a generator
+
+
+def _mem_observe(c, m, obs, log):
+    """right after the call, before any output is requested: how far an iterator memory was read (the next two items
+    the caller can still get out of it; the number of items pulled when it counts), what a callable was asked"""
+    mc = c.get("mem")
+    if mc is None:
+        return
+    if mc["kind"] == "callable":
+        obs["asked"] = list(log)
+    elif mc.get("as") in ITER_FLAVOURS or (mc["kind"] == "gen" and mc.get("as") in (None, "counting")):
+        if isinstance(m, X._Counting):
+            obs["mem_pulled"] = m.n
+        obs["mem_next"] = [enc(v) for v in itertools.islice(iter(m), 2)]
 
 
 def _build(c):
@@ -476,14 +544,19 @@ def impl_call(c):
         obs["dendict"] = [[k, enc(v)] for k, v in sorted(filt.dendict.items())]
         stage = "call"
         kw = {"zero": val(c["zero"])}
-        m = _mem_obj(c.get("mem"))
+        asked = []
+        m = _mem_obj(c.get("mem"), asked)
         if m is not None:
             kw["memory"] = m
         xs = [val(x) for x in xs_of(c)]
         pristine = list(xs)
         res = filt(_xs_obj(xs, c.get("xs_as", "list")), **kw)
+        memobs = {}
+        _mem_observe(c, m, memobs, asked)
         stage = "iter"
         out = list(res)
+        obs.update(memobs)
+        obs["gain_lit"] = gain_literal(captured[-1]) if captured else None
         obs["out"] = [enc(y) for y in out]
         obs["float_out"] = any(isinstance(y, float) for y in out)
         obs["src"] = captured[-1] if captured else None
@@ -717,11 +790,34 @@ def _compare_call(c, io, drv):
         src = io.get("src") or ""
         out.append(("model", "generated source differs from compile: impl IR %r, model IR %r; source:\n%s" % (
             _abbr(io["ir"]), _abbr(model["ir"]), src if len(src) < 600 else src[:300] + "\n…\n" + src[-200:])))
+    # --- the gain literal: the divisor is the gain ITSELF, spelled in its own type (an int gain divides exact samples
+    # exactly; `float(gain)` or a reciprocal would not) -----------------------------------------------------------------
+    mir = model["ir"]
+    if mir.get("kind") == "loop" and mir["gain"][0] == "div" and io["ir"] == mir and _unshifted(c):
+        want = gain_spelling(gain_of(c))
+        if io.get("gain_lit") != want:
+            out.append(("model", "the gain %r is written into the source as a %s literal, not as the %s it is; source:\n%s" % (
+                gain_of(c), io.get("gain_lit"), want, (io.get("src") or "")[:400])))
+    # --- how the memory was read (at the call) ----------------------------------------------------------------
+    mr = model.get("memread")
+    if "mem_next" in io and mr is not None:
+        if [dec(v) for v in io["mem_next"]] != [dec(v) for v in mr["next"]]:
+            out.append(("model", "iterator memory: after the call the caller's iterator delivers %r next, model (takewhile pulls "
+                                 "%d item(s)) says %r" % (io["mem_next"], mr["pulled"], mr["next"])))
+        if "mem_pulled" in io and io["mem_pulled"] != mr["pulled"]:
+            out.append(("model", "iterator memory: %d item(s) pulled at the call, model says %d" % (io["mem_pulled"], mr["pulled"])))
+    if "asked" in io and io["asked"] != model.get("asked"):
+        out.append(("spec", "the callable memory was asked %r, the property says once for the needed size: %r" % (
+            io["asked"], model.get("asked"))))
     # --- I/O --------------------------------------------------------------------------------
     got = [dec(v) for v in io["out"]]
     d = _outs_equal(c, got, [dec(v) for v in model["out"]], model)
     if d:
         out.append(("model", "output differs from model: " + d))
+    if "free" in model and not _short_memory(c, model):
+        d = _outs_equal(c, got, [dec(v) for v in model["free"]], model)
+        if d:
+            out.append(("spec", "zero numerator with feedback: the output is not the free response of the memory: " + d))
     if _short_memory(c, model):
         # outside the property's quantifier ("memories of sufficient length"): the LEFT padding is
         # checked against the model only (as coded), never reported as a violated property
@@ -732,6 +828,14 @@ def _compare_call(c, io, drv):
     if io.get("xs_modified"):
         out.append(("spec", "the caller's input list was modified by the call"))
     return out
+
+
+def _unshifted(c):
+    """were the coefficients stored as given (no z-arithmetic, no normalisation shift in __init__)?"""
+    if c.get("route", "dict") not in ("list", "linear", "poly", "cast", "dict", "odict"):
+        return False
+    nz = [k for k, v in c["den"] if val(v) != 0]
+    return bool(nz) and min(nz) == 0
 
 
 def _short_memory(c, model):
@@ -1071,6 +1175,101 @@ def _gen_long(rng, tier, scale):
     return out
 
 
+
+# ---- round 4 families: the free response, the gain operator, how memories are read ---------------------------
+ZERO_SPELLINGS = {"int": 0, "frac": "0/1", "float": {"f": 0.0}}
+
+
+def _gen_free(rng, tier, scale):
+    """all-zero numerators (every spelling and length, incl. none at all) x denominators of order >= 1 x memory kinds x
+    zero values: the trivial `yield zero` generator must NOT be chosen; exact regime (int coefficients, Fraction data)"""
+    out = []
+    for _ in range((220 if tier == "quick" else 3000) * scale):
+        route = rng.choice(["list", "list", "dict", "odict", "linear", "poly", "cast", "zexpr"])
+        zs = ZERO_SPELLINGS[rng.choice(["int", "int", "frac", "float"])]
+        nb = rng.choice([0, 1, 1, 2, 3])
+        la = rng.choice([2, 2, 3, 4])
+        a = [rng.choice([1, 1, -1, 2, -3])] + [rng.choice([0, 1, -1, 2, -2, 3]) for _ in range(la - 1)]
+        a[-1] = rng.choice([1, -1, 2, -2, 3])
+        num = [[k, zs] for k in range(nb)]
+        den = [[k, v] for k, v in enumerate(a)]
+        if route in ("dict", "odict", "zexpr"):
+            num = [kv for kv in num if rng.random() < 0.5]
+            den = [[k, v] for k, v in den if v != 0]
+            if route != "zexpr" and rng.random() < 0.3:        # a common delay: normalised away
+                off = rng.choice([1, 2])
+                num, den = [[k + off, v] for k, v in num], [[k + off, v] for k, v in den]
+        lm = la - 1
+        r = rng.random()
+        if r < 0.3:
+            mem = None
+        elif r < 0.75:
+            mem = {"kind": "iter", "vals": [_sample(rng, "frac") for _ in range(lm + rng.choice([0, 0, 0, 1, 2]))],
+                   "as": rng.choice(["list", "tuple", "gen", "iter", "stream", "deque", "counting"])}
+        elif r < 0.85:
+            mem = {"kind": "gen", "base": _sample(rng, "frac"), "step": _sample(rng, "frac"), "as": rng.choice(["counting", None])}
+        else:
+            mem = {"kind": "callable", "form": rng.choice(["arith", "arithrev"]), "base": _sample(rng, "frac"), "step": _sample(rng, "frac")}
+        out.append({"entry": "call", "route": route, "num": num, "den": den, "mem": mem, "family": "free",
+                    "zero": rng.choice(["7/1", "7/1", "-2/1", "1/1", "0/1", "1/3"]) if mem is None or rng.random() < 0.5 else "0/1",
+                    "xs": [_sample(rng, "frac") for _ in range(rng.choice([1, 2, 3, 5, 6]))],
+                    "xs_as": rng.choice(["list", "iter", "tuple", "gen", "stream"])})
+    return out
+
+
+GAIN_POOL = [2, 3, -3, 5, 7, -2, 4, 10, 10 ** 30, -(10 ** 18) - 1, "3/1", "-2/1", "7/1", "1/2", "-5/2", "3/7",
+             {"f": 2.0}, {"f": -0.5}, {"f": 3.0}]
+EXACT_SAMPLES = ["1/3", "-2/7", "5/1", "1/1", "22/9", "-13/11", "%d/1" % (10 ** 30 + 7), "%d/3" % (10 ** 20 + 1), "0/1", "1/1000003"]
+
+
+def _gen_gain(rng, tier, scale):
+    """a[0] of every spelling other than +-1 (int, negative, huge, integer-valued and other Fractions, floats) x exact
+    samples (Fractions with odd denominators, huge integers as Fractions): with an int gain the outputs are EXACT"""
+    out = []
+    for i in range((260 if tier == "quick" else 3000) * scale):
+        g = GAIN_POOL[i % len(GAIN_POOL)] if i < 3 * len(GAIN_POOL) else rng.choice(GAIN_POOL)
+        lb, la = rng.choice([1, 2, 3]), rng.choice([1, 2, 2, 3])
+        b = [rng.choice([1, -1, 2, 3, 0, -5]) for _ in range(lb)]
+        if all(v == 0 for v in b) and la == 1:
+            b[0] = 1
+        a = [g] + [rng.choice([1, -1, 2, 0, -3]) for _ in range(la - 1)]
+        route = rng.choice(["list", "list", "dict", "odict", "linear", "poly", "cast", "zexpr"])
+        num, den = [[k, v] for k, v in enumerate(b)], [[k, v] for k, v in enumerate(a)]
+        if route in ("dict", "odict", "zexpr"):
+            num = [[k, v] for k, v in num if v != 0]
+            den = [[k, v] for k, v in den if val(v) != 0]
+        lm = _lm_of(den)
+        mem = None if rng.random() < 0.4 else {"kind": "iter", "vals": [rng.choice(EXACT_SAMPLES) for _ in range(lm)],
+                                               "as": rng.choice(["list", "tuple", "gen", "counting"])}
+        out.append({"entry": "call", "route": route, "num": num, "den": den, "mem": mem, "family": "gain",
+                    "zero": rng.choice(["0/1", "0/1", "7/1", "1/3"]),
+                    "xs": [rng.choice(EXACT_SAMPLES) for _ in range(rng.choice([1, 2, 3, 5]))],
+                    "xs_as": rng.choice(["list", "iter", "tuple"])})
+    return out
+
+
+def _gen_memread(rng, tier, scale):
+    """iterator memories of every length around the order (0 .. lm+3, endless) on filters of order 0..4: the caller's
+    iterator is observed right after the call (items pulled, what it delivers next)"""
+    out = []
+    for _ in range((220 if tier == "quick" else 3000) * scale):
+        lm = rng.choice([0, 0, 1, 1, 2, 3, 4])
+        a = [rng.choice([1, -1, 2])] + [rng.choice([0, 1, -1, 2]) for _ in range(lm)]
+        if lm:
+            a[-1] = rng.choice([1, -1, 2, -3])
+        b = [rng.choice([1, -1, 2, 0, 3]) for _ in range(rng.choice([0, 1, 2, 3]))]
+        if rng.random() < 0.8:
+            n = rng.choice([0, max(0, lm - 1), lm, lm, lm + 1, lm + 1, lm + 2, lm + 3])
+            mem = {"kind": "iter", "vals": ["%d/1" % (10 + i) for i in range(n)], "as": rng.choice(["counting", "counting", "gen", "iter", "stream"])}
+        else:
+            mem = {"kind": "gen", "base": _sample(rng, "frac"), "step": rng.choice(["1/1", "1/2", "-3/1"]), "as": rng.choice(["counting", None])}
+        out.append({"entry": "call", "route": rng.choice(["list", "linear", "poly"]), "family": "memread",
+                    "num": [[k, v] for k, v in enumerate(b)], "den": [[k, v] for k, v in enumerate(a)], "mem": mem,
+                    "zero": rng.choice(["0/1", "7/1"]), "xs": [_sample(rng, "frac") for _ in range(rng.choice([0, 1, 3]))],
+                    "xs_as": rng.choice(["list", "iter"])})
+    return out
+
+
 def generate(rng, tier, scale=1):
     # the process every history is forked from is started now, while this process is still small (a fork copies the
     # page tables: forked after tens of thousands of cases exist, every child costs 10x more)
@@ -1114,6 +1313,10 @@ def generate(rng, tier, scale=1):
             den = [[k, v] for k, v in dict((k, v) for k, v in den).items()]
         cases.append(_case(rng, route, num, den, 6, "frac"))
     cases.extend(_gen_cascade(random.Random(rng.random()), tier, scale))
+    r4 = random.Random(rng.random())
+    cases.extend(_gen_free(r4, tier, scale))
+    cases.extend(_gen_gain(r4, tier, scale))
+    cases.extend(_gen_memread(r4, tier, scale))
     # long runs / large orders, then histories (own random streams: the batches above keep their draws)
     cases.extend(_gen_long(random.Random(rng.random()), tier, scale))
     cases.extend(H.generate(random.Random(rng.random()), tier, scale))
@@ -1145,6 +1348,17 @@ def tally(eng, c, io):
         eng.count("long_samples", "Fraction" if c.get("xs_pat", {}).get("frac") or any(isinstance(x, str) for x in c.get("xs", [])) else "int")
     eng.count("xs_flavour", c.get("xs_as", "list"))
     eng.count("route", c.get("route", "dict"))
+    if c.get("family"):
+        eng.count("family", c["family"])
+        if c["family"] == "gain":
+            g = gain_of(c)
+            eng.count("gain_family_spelling", gain_spelling(g) + (":negative" if val(g) < 0 else "") + (":huge" if abs(val(g)) > 2 ** 63 else ""))
+        if c["family"] == "free" and "out" in io:
+            eng.count("free_response", "non-zero" if any(dec(v) != 0 for v in io["out"]) else "silent")
+    if "mem_next" in io:
+        eng.count("iterator_memory_pulled", io.get("mem_pulled", "uncounted"))
+    if "asked" in io:
+        eng.count("callable_memory_asked", len(io["asked"]))
     m = c.get("mem")
     eng.count("memory", "none" if m is None else (m["kind"] + ":" + ((m.get("form") + ("/" + m["ret"] if "ret" in m else "")) if m.get("form")
                                                                      else (m.get("as", "list") if m["kind"] == "iter" else "endless"))))
